@@ -465,3 +465,19 @@ Proof.
   split; [exact Hq|]. split; [|symmetry; exact Hl].
   rewrite Hs, Hd. discriminate.
 Qed.
+
+(* ---------- the retry race ---------- *)
+Lemma stale_counter_overruns :
+  gen_retry_incr_before_publish = false ->
+  let h := mkH 2 1 [] 1 [] (ABefore (mkExn 0 0)) in
+  execs (dist_leaf_racy h) = maxr h + 2 /\ execs (dist_prog id_tr (Node h SNil)) = maxr h + 1.
+Proof.
+  intros H h. subst h. unfold dist_leaf_racy, lagging_view. rewrite H. vm_compute. split; reflexivity.
+Qed.
+
+Lemma ordered_counter_is_exact :
+  gen_retry_incr_before_publish = true ->
+  forall tr h, dist_leaf_racy h = dist_prog tr (Node h SNil).
+Proof.
+  intros H tr h. unfold dist_leaf_racy, lagging_view. rewrite H. reflexivity.
+Qed.
